@@ -1687,7 +1687,7 @@ func (p *parser) scanCharSet(caseInsensitive, scanOnly bool) (*CharSet, error) {
 
 	var cc *CharSet
 	if !scanOnly {
-		cc = &CharSet{}
+		cc = &CharSet{building: true}
 	}
 
 	if p.charsRight() > 0 && p.rightChar(0) == '^' {
@@ -1906,6 +1906,11 @@ func (p *parser) scanCharSet(caseInsensitive, scanOnly bool) (*CharSet, error) {
 
 	if !scanOnly && caseInsensitive {
 		cc.addLowercase()
+	}
+	if !scanOnly {
+		// all items are in: now the class can take its normal form
+		cc.building = false
+		cc.canonicalize()
 	}
 
 	return cc, nil
